@@ -631,7 +631,7 @@ class Pilot(object):
             return self.state
 
         start_wait = time.time()
-        while self.state not in states:
+        while self.state not in states and self.state not in rps.FINAL:
 
             time.sleep(0.1)
             if timeout and (timeout <= (time.time() - start_wait)):
